@@ -196,6 +196,70 @@ func c14Handler(p *core.Prog, r *core.Report) {
 		res := core.ReachAvoiding(f, nil, core.IsReturn, isWT, nonZero)
 		r.Check(!res.Found, "C14-R2", fname(f), "a non-zero Timeout always bounds the built context", p.Pos(f.Pos()),
 			"assuming Timeout != 0 every path passes WithTimeout(parent, Timeout)", "an explicit Timeout (a received ttl, a per-hop budget) is ignored on some path, e.g. when the parent already has a deadline: "+p.TrailString(res))
+		// the built context is a child of the given parent (its cancellation and
+		// its earlier deadline reach the call): the first argument of every
+		// WithTimeout / WithCancel / WithDeadline derives from cb.ParentContext
+		{
+			var fromParent func(v ssa.Value, d int) bool
+			fromParent = func(v ssa.Value, d int) bool {
+				if d > 8 || v == nil {
+					return false
+				}
+				if fl := core.LoadedField(v); fl != nil && fl.Name() == "ParentContext" {
+					return true
+				}
+				switch x := v.(type) {
+				case *ssa.Phi:
+					for _, e := range x.Edges {
+						if fromParent(e, d+1) {
+							return true
+						}
+					}
+				case *ssa.Extract:
+					return fromParent(x.Tuple, d+1)
+				case *ssa.TypeAssert:
+					return fromParent(x.X, d+1)
+				case *ssa.Field:
+					return fromParent(x.X, d+1)
+				case *ssa.MakeInterface:
+					return fromParent(x.X, d+1)
+				case *ssa.ChangeInterface:
+					return fromParent(x.X, d+1)
+				case *ssa.UnOp:
+					if fa, isFA := x.X.(*ssa.FieldAddr); isFA && x.Op == token.MUL {
+						return fromParent(fa.X, d+1)
+					}
+					if al, isAl := x.X.(*ssa.Alloc); isAl && x.Op == token.MUL {
+						for _, ref := range *al.Referrers() {
+							if st, isSt := ref.(*ssa.Store); isSt && st.Addr == ssa.Value(al) && fromParent(st.Val, d+1) {
+								return true
+							}
+						}
+					}
+				}
+				return false
+			}
+			orphan, nDer := "", 0
+			core.EachInstr(f, func(i ssa.Instruction) {
+				c, ok := i.(*ssa.Call)
+				if !ok {
+					return
+				}
+				o := core.CalleeObj(c)
+				if o == nil || o.Pkg() == nil || !strings.HasSuffix(o.Pkg().Path(), "context") || len(c.Call.Args) == 0 {
+					return
+				}
+				switch o.Name() {
+				case "WithTimeout", "WithCancel", "WithDeadline":
+					nDer++
+					if !fromParent(c.Call.Args[0], 0) {
+						orphan = p.Pos(c.Pos())
+					}
+				}
+			})
+			r.Check(orphan == "" && nDer > 0, "C14-R2", fname(f), "the built context is a child of the given parent", p.Pos(f.Pos()), fmt.Sprintf("%d derivations, all from cb.ParentContext (Background only when it is nil)", nDer),
+				"the context derived at "+orphan+" does not descend from cb.ParentContext: the parent's cancellation and earlier deadline do not reach the call")
+		}
 		r.Check(okCancel && okTimeout, "C14-R2", fname(f), "every built context has a deadline", p.Pos(f.Pos()), "WithTimeout(parent, Timeout), or WithCancel only when the parent has a deadline", fmt.Sprintf("a context can be built without a deadline (withCancelGuarded=%v withTimeout=%v)", okCancel, okTimeout))
 	}
 	// the handler gets the exchange's context
